@@ -36,13 +36,14 @@ type lsRoot struct {
 }
 
 type lockAnalysis struct {
-	w     *World
-	pkg   *ssa.Package
-	impls map[string][]*ssa.Function
-	Acc   []lsAccess
-	seen  map[string]bool
-	root  string
-	Roots []lsRoot
+	fieldTargets map[string][]*ssa.Function
+	w            *World
+	pkg          *ssa.Package
+	impls        map[string][]*ssa.Function
+	Acc          []lsAccess
+	seen         map[string]bool
+	root         string
+	Roots        []lsRoot
 	// lock sets at call sites, for "function f always runs with lock L" queries
 	EntryLocks map[*ssa.Function][]string
 	Funcs      map[string]map[*ssa.Function]bool // root -> reachable functions
@@ -292,6 +293,14 @@ func (a *lockAnalysis) visit(fn *ssa.Function, locks string, ctx string) {
 					}
 				} else if mc, ok := ins.Call.Value.(*ssa.MakeClosure); ok {
 					a.visit(mc.Fn.(*ssa.Function), setStr(cur), ctx)
+				} else if ld, ok := ins.Call.Value.(*ssa.UnOp); ok && ld.Op == token.MUL {
+					// a call through a function-typed field of a repository struct (an injected dependency): every function
+					// the program ever stores into that field may be the callee
+					if fa, ok := ld.X.(*ssa.FieldAddr); ok {
+						for _, f := range a.funcFieldTargets(fa) {
+							a.visit(f, setStr(cur), ctx)
+						}
+					}
 				}
 			case *ssa.Store:
 				if record {
@@ -482,4 +491,83 @@ func dbusConnImplements(w *World, t types.Type) bool {
 		}
 	}
 	return false
+}
+
+// funcFieldTargets: the functions stored anywhere in the repository into the struct field fa addresses (directly, or as
+// an argument of a constructor call whose parameter is stored into the field).
+func (a *lockAnalysis) funcFieldTargets(fa *ssa.FieldAddr) []*ssa.Function {
+	st := structOf(fa.X.Type())
+	if st == nil {
+		return nil
+	}
+	if _, isSig := st.Field(fa.Field).Type().Underlying().(*types.Signature); !isSig {
+		return nil
+	}
+	key := fa.X.Type().String() + "#" + fmt.Sprint(fa.Field)
+	if a.fieldTargets == nil {
+		a.fieldTargets = map[string][]*ssa.Function{}
+	}
+	if t, ok := a.fieldTargets[key]; ok {
+		return t
+	}
+	seen := map[*ssa.Function]bool{}
+	var out []*ssa.Function
+	var fromValue func(v ssa.Value, depth int)
+	fromValue = func(v ssa.Value, depth int) {
+		if depth > 4 {
+			return
+		}
+		switch x := v.(type) {
+		case *ssa.Function:
+			if !seen[x] {
+				seen[x] = true
+				out = append(out, x)
+			}
+		case *ssa.MakeClosure:
+			if f, ok := x.Fn.(*ssa.Function); ok && !seen[f] {
+				seen[f] = true
+				out = append(out, f)
+			}
+		case *ssa.ChangeType:
+			fromValue(x.X, depth+1)
+		case *ssa.Parameter:
+			// every argument passed for this parameter by a direct caller
+			fn := x.Parent()
+			idx := -1
+			for i, p := range fn.Params {
+				if p == x {
+					idx = i
+				}
+			}
+			for g := range a.w.AllFuncs {
+				if !a.w.IsRepoFunc(g) {
+					continue
+				}
+				for _, b := range g.Blocks {
+					for _, in := range b.Instrs {
+						if ci, ok := in.(ssa.CallInstruction); ok && ci.Common().StaticCallee() == fn && idx >= 0 && idx < len(ci.Common().Args) {
+							fromValue(ci.Common().Args[idx], depth+1)
+						}
+					}
+				}
+			}
+		}
+	}
+	for g := range a.w.AllFuncs {
+		if !a.w.IsRepoFunc(g) {
+			continue
+		}
+		for _, b := range g.Blocks {
+			for _, in := range b.Instrs {
+				if s2, ok := in.(*ssa.Store); ok {
+					if fa2, ok := s2.Addr.(*ssa.FieldAddr); ok && fa2.Field == fa.Field && types.Identical(fa2.X.Type(), fa.X.Type()) {
+						fromValue(s2.Val, 0)
+					}
+				}
+			}
+		}
+	}
+	sort.Slice(out, func(i, j int) bool { return out[i].String() < out[j].String() })
+	a.fieldTargets[key] = out
+	return out
 }
